@@ -162,6 +162,57 @@ def dup_tag_check(out):
             pass
 
 
+
+def serialised_values_are_independent(out):
+    """several values of one tagged union serialised through the same converter (containers, successive calls, a variant nesting the
+    union): every result is the layout of ITS value and stays so after later calls; the whole parses back"""
+    import copy
+    import typing as t
+    import pane
+    from pane.annotations import Tagged
+    n = 0
+    for lay_name, ext in (('internal', False), ('external', True), ('adjacent', ('t', 'c'))):
+        class Circle(pane.PaneBase):
+            kind: t.Literal['circle'] = 'circle'
+            r: float = 1.0
+
+        class Rect(pane.PaneBase):
+            kind: t.Literal['rect'] = 'rect'
+            w: int = 1
+            h: int = 1
+        Shape = t.Annotated[t.Union[Circle, Rect], Tagged('kind', external=ext)]
+
+        def one(x):
+            body = x.into_data()
+            if ext is False:
+                return body
+            if ext is True:
+                return {x.kind: body}
+            return {'t': x.kind, 'c': body}
+        xs = [Circle(r=2.0), Rect(w=2, h=3), Circle(r=5.0), Rect()]
+        want = [one(x) for x in xs]
+        for label, ty, val, wanted in (('list', t.List[Shape], xs, want), ('tuple', t.Tuple[Shape, Shape], (xs[0], xs[1]), (want[0], want[1])),
+                                       ('mapping', t.Dict[str, Shape], {'a': xs[0], 'b': xs[1]}, {'a': want[0], 'b': want[1]})):
+            n += 1
+            try:
+                d = pane.into_data(val, ty)
+                back = pane.from_data(d, ty)
+            except Exception as e:
+                out.violation(f'C12:serialise-many:{type(e).__name__}', f'{lay_name} layout, {label} of variants: {type(e).__name__}: {str(e)[:200]}', {'layout': lay_name})
+                continue
+            if d != wanted or back != val:
+                out.violation('C12:serialise-many', f'{lay_name} layout: into_data of a {label} of variants gave {d!r}, expected {wanted!r}; parsed back as {back!r}',
+                              {'layout': lay_name, 'container': label})
+        n += 1
+        d1 = pane.into_data(xs[0], Shape)
+        snap = copy.deepcopy(d1)
+        d2 = pane.into_data(xs[1], Shape)
+        if d1 != snap or d1 is d2:
+            out.violation('C12:serialised-result-changed-by-later-call', f'{lay_name} layout: into_data({xs[0]!r}) was {snap!r} and became {d1!r} after into_data({xs[1]!r})',
+                          {'layout': lay_name})
+    return n
+
+
 def run(ctx, out):
     out.rule = ('tagged unions (2-3 variant dataclasses, tags str/int, three layouts) at top level and nested x values: valid per layout, '
                 'edited (tag changed / removed / replaced by list, dict, None, float; keys added), arbitrary. The result or error is compared '
@@ -169,6 +220,7 @@ def run(ctx, out):
                 'into_data must write the layout and parse back. Duplicate tags must be refused at build time.')
     convprop.run(ctx, out, PROP, monitor, cfg={'weights': {'tagged': 12.0}})
     dup_tag_check(out)
+    out.evaluations += serialised_values_are_independent(out)
 
 
 def replay(rep, out):
